@@ -171,6 +171,18 @@ def run(model: Model, rep: Report) -> None:
         o = mc.params[1]
         r1.check(c == f"abs(({o}.{ax}0+{o}.{ax}1)/2-(self.{ax}0+self.{ax}1)/2)<=tolerance", site(mc), mc.qualname, "|centre(other) - centre(self)| <= tolerance", why=c)
     # ---------------------------------------------------------------- R3 order keys
+    r7 = rep.rule("C09-R7", "ORDER", "group_textlines asks every line for its neighbours (the neighbour relation is not symmetric when heights differ, so a line that was already placed may still pull in further lines)", 1)
+    gtl = model.func(L + "LTLayoutContainer.group_textlines")
+    loops7 = [n for n in walk_no_nested(gtl.node) if isinstance(n, ast.For) and any(isinstance(c, ast.Call) and isinstance(c.func, ast.Attribute) and c.func.attr == "find_neighbors" for c in ast.walk(n))]
+    if not loops7:
+        raise AnchorMissing("group_textlines: loop calling find_neighbors not found")
+    from ..cfg import build_cfg
+
+    lp = loops7[0]
+    frag = ast.FunctionDef(name="_body", args=ast.arguments(posonlyargs=[], args=[], kwonlyargs=[], kw_defaults=[], defaults=[]), body=lp.body, decorator_list=[], lineno=lp.lineno, col_offset=0)
+    g7 = build_cfg(frag, exc_edges=False)
+    wit7 = g7.all_path_pass(g7.entry, lambda n: n.ast is not None and any(isinstance(c, ast.Call) and isinstance(c.func, ast.Attribute) and c.func.attr == "find_neighbors" and unparse(c.func.value) == unparse(lp.target) for c in ast.walk(n.ast)))
+    r7.check(wit7 is None, site(gtl, lp), gtl.qualname, f"every iteration of `for {unparse(lp.target)} in {unparse(lp.iter)}` reaches {unparse(lp.target)}.find_neighbors(...)", why="some lines are skipped (continue / condition before the query): boxes are no longer the connected components of the neighbour relation")
     r3 = rep.rule("C09-R3", "NORMFORM", "box ordering keys: top-to-bottom then left-to-right (mirrored for vertical writing)", 3)
     pe = SymEval(opaque_ok=True)
     bf = Poly.var("boxes_flow")
